@@ -187,7 +187,8 @@ def parse_callpath(s):
         free_fn::<G>                                kind='free'
     """
     cp = CallPath()
-    cp.raw = s = s.strip()
+    cp.raw = s.strip()
+    s = _strip_lifetimes(s.strip())
     cp.generics = ()
     cp.trait = None
     cp.self_ty = None
